@@ -4,7 +4,7 @@ from harness import gen_seq
 from runner import Case, CaseSet
 
 ID = 'C13'
-OBLIGATIONS = ['Props/C13.v', 'Props/Tie/normalise_tie.v', 'Props/Tie/minipy_validate_tie.v']
+OBLIGATIONS = ['Props/C13.v', 'Props/Tie/normalise_tie.v', 'Props/Tie/minipy_validate_tie.v', 'Props/Tie/minipy_init_tie.v']
 RULE = ('valid sequences with random case and injected ASCII/Unicode whitespace; every one of the 128 ASCII characters at '
         'first / middle / last position of a valid word; non-ASCII letters whose upper() is a residue word (ß, ſ, ı, ﬁ …) and '
         'other Unicode letters/digits; empty / blank strings; non-strings (None, int, bytes, list, str subclass); '
